@@ -40,7 +40,7 @@ def load_known(prop):
             if not line or line.startswith('#'):
                 continue
             rec = json.loads(line)
-            if rec.get('property') == prop and rec.get('status', 'open') == 'open':
+            if (rec.get('property') == prop or prop in rec.get('also', [])) and rec.get('status', 'open') == 'open':
                 out.append(rec)
     return out
 
